@@ -16,6 +16,8 @@ Operation tokens (shared with the Lean driver):
   w0 w1 (queue_and_send_record, w1 = the transport answers with pauseProducing) | P R S (transport calls
   pause/resume/stopProducing) | r:<sc>:<p>:<1|0> (registerProducer push|pull) | u:<sc> | c:<sc> (subchannel_closed)
   | U D (use_connection / stop_using_connection) | pl:<p> (one Cooperator work unit of adapter p)
+  | X (inside a turn: the producer writes to a real SubChannel that was closed locally, AlreadyClosedError
+  leaves its resumeProducing(); for a pull producer that is PullToPush._pull's error path)
 Inbound tokens: use | stop | p <sc> | r <sc> | s <sc> (SubChannel.pause/resume/stopProducing) | o <sc> / oh <sc>
   (subchannel_local_open + _set_protocol, plain / half-closeable protocol) | c <sc> (Manager.subchannel_closed directly)
   | rc <sc> (peer's CLOSE via Inbound.handle_close) | l <sc> (sc.loseConnection()) | lw <sc> (sc.loseWriteConnection())
@@ -41,6 +43,10 @@ from ..util import automat_state
 ID = "C15"
 PROP_MODULES = ["WV.Props.C15"]
 TRUSTED = [
+    "producers are ids in the model; that Outbound.resumeProducing's loop ends on `p is None` and not on the truth value "
+    "of a producer object is pinned from the source (resume_loop_ends_only_on_none) and the witness with a falsy "
+    "IPushProducer is run on the real code as case kind `falsy`",
+    "an application push producer's resumeProducing() does not raise; a pull producer's may (PullToPush._pull error path)",
     "application producers' pauseProducing()/stopProducing() do not call back into Outbound (only resumeProducing "
     "is re-entrant); a producer object is registered on at most one subchannel at a time; the Manager alternates "
     "use_connection/stop_using_connection (environment hypotheses of the theorems, checked dynamically by the harness)",
@@ -66,7 +72,15 @@ class Rec:
 
 @implementer(IDilationManager)
 class FakeManager:
-    pass
+    # what a SubChannel asks of its manager when the application closes it / writes to it
+    def send_close(self, scid):
+        pass
+
+    def send_data(self, scid, data):
+        pass
+
+    def subchannel_closed(self, scid, sc):
+        pass
 
 
 class LoggedTask(CooperativeTask):
@@ -99,7 +113,8 @@ class FakeCooperator:
         self._tasks.append(t)
 
     def _removeTask(self, t):
-        self._tasks.remove(t)
+        if t in self._tasks:     # (a task that finishes after it was stopped is removed twice)
+            self._tasks.remove(t)
 
     def cooperate(self, iterator):
         pid = self._w.registering_pull
@@ -119,7 +134,13 @@ class PushProd:
 
     def resumeProducing(self):
         self.w.signal("r", self.pid)
-        self.w.turn()
+        try:
+            self.w.turn()
+        except Exception:
+            # an application push producer whose resumeProducing() raises: outside the environment
+            self.w.env_ok = False
+            self.w.tags.add("env:push-producer-raises")
+            raise
 
     def stopProducing(self):
         self.w.ev("stop%d" % self.pid)
@@ -133,7 +154,13 @@ class PullProd:
 
     def resumeProducing(self):
         self.w.ev("t%d" % self.pid)
-        self.w.turn()
+        try:
+            self.w.turn()
+        except Exception:
+            # a failed pull producer: PullToPush._pull must take its adapter out of Outbound's bookkeeping;
+            # from here on the oracle no longer counts it as a registered producer
+            self.w.pull_failed(self.pid)
+            raise
 
     def stopProducing(self):
         self.w.ev("stop%d" % self.pid)
@@ -187,6 +214,11 @@ class OutWorld:
         self.since = {}                 # pid -> set of (pid, epoch) that had a turn since pid's last turn
         self.tags = set()
         self.depth = 0
+        self.pull_sc = {}               # pull producer id -> the subchannel it was registered on
+        # a real SubChannel which the application has closed locally (state `closing`): writes to it raise
+        self.dead_sc = SubChannel(99, FakeManager(), _WormholeAddress(), SubchannelAddress("proto"))
+        self.dead_sc._set_protocol(FullProto())
+        self.dead_sc.loseConnection()
 
     # ---- observation
     def ev(self, s):
@@ -256,21 +288,49 @@ class OutWorld:
         self.depth += 1
         if self.depth > 1:
             self.tags.add("nested-turn")
-        for tok in script:
+        try:
+            for tok in script:
+                self.point()
+                if tok == "X":
+                    # the producer writes to its subchannel, which the application has closed locally
+                    # (real SubChannel in `closing`): AlreadyClosedError leaves its resumeProducing()
+                    self.tags.add("turn-raises")
+                    self.dead_sc.write(b"x")
+                self.do(tok)
             self.point()
-            self.do(tok)
-        self.point()
-        self.depth -= 1
+        finally:
+            self.depth -= 1
+
+    def pull_failed(self, pid):
+        sc = self.pull_sc.get(pid)
+        owner = self.sc_owner.get(sc)
+        if owner is None:
+            return
+        if owner != pid:
+            # the failing producer had already been replaced on its subchannel by another one, which the
+            # adapter's unregister closure (it unregisters by subchannel) now removes: outside the environment
+            self.env_ok = False
+            self.tags.add("env:failed-producer-replaced")
+        self.sc_owner.pop(sc)
+        self.registered.pop(owner, None)
+        self.since.pop(owner, None)
+        self.tags.add("pull-producer-failed")
 
     def do(self, tok):
         f = tok.split(":")
         dup = f[0] == "r" and int(f[1]) in self.sc_owner
         exc = None
+        n0 = len(self.events)
+        was_connected = self.connected
         try:
             self.perform(tok)
         except Exception as e:  # the caller of an operation sees its exception and goes on
             exc = type(e).__name__
             self.ev("!" + exc)
+        if f[0] == "D" and was_connected and "TU" not in self.events[n0:]:
+            self.bad("transport-not-unregistered", "stop_using_connection left Outbound registered as the producer of the abandoned transport")
+        if f[0] == "U" and not was_connected and "TR" not in self.events[n0:]:
+            self.bad("transport-not-registered", "use_connection did not register Outbound as the producer of the new transport")
         self.after(tok, exc, dup)
 
     def perform(self, tok):
@@ -307,6 +367,7 @@ class OutWorld:
                 else:
                     self.registering_pull = pid
                     o.subchannel_registerProducer(sc, PullProd(self, pid), False)
+                    self.pull_sc[pid] = sc
                 self.registered[pid] = self.pending[1]
                 self.sc_owner[sc] = pid
                 self.since[pid] = set()
@@ -330,6 +391,8 @@ class OutWorld:
             self.connected = False
             self.t_paused = True
             o.stop_using_connection()
+        elif k == "X":
+            self.dead_sc.write(b"x")
         elif k == "pl":
             t = self.tasks.get(int(f[1]))
             if t is not None and t in self.coop._tasks:
@@ -340,6 +403,8 @@ class OutWorld:
     def after(self, tok, exc, dup):
         f = tok.split(":")
         k = f[0]
+        if k == "X":
+            return      # the top-level caller's own write failing is nobody's business
         if k in ("u", "c"):
             sc = int(f[1])
             if sc in self.sc_owner:
@@ -390,6 +455,11 @@ def run_out(case):
         w.point(quiescent=True)
         exp.append((",".join(w.events) or "-") + " | " + canon_out(w))
         w.tags.add("op:" + tok.split(":")[0] + ("+script" if scripts else ""))
+        if not w.env_ok and "!AssertionError" in w.events:
+            # outside the environment AND the bookkeeping has just been found corrupted: what happens next is not
+            # specified by anything (e.g. a PullToPush adapter that was never started); compared up to here only
+            w.tags.add("env:stopped-after-assertion")
+            break
     if not w.env_ok:
         w.tags.add("env:outside")
     # de-duplicate violations by signature (first message kept)
@@ -557,10 +627,13 @@ def run_in(case):
                     tags.add("env:scid-reuse")
                 m.subchannel_local_open(n, sc_of(n))
                 ever.add(n)
-                is_open.add(n)
+                is_open.add(n)          # (Inbound has it from here on, whatever _set_protocol says)
                 closed.discard(n)
-                protos[n] = HalfProto() if k == "oh" else FullProto()
-                sc_of(n)._set_protocol(protos[n])
+                if n not in protos:
+                    protos[n] = HalfProto() if k == "oh" else FullProto()
+                    sc_of(n)._set_protocol(protos[n])
+                else:
+                    sc_of(n)._set_protocol(HalfProto() if k == "oh" else FullProto())   # AssertionError: already has one
             elif k == "c":
                 if was_open:
                     tags.add("close:%s/%d-open-paused/%s" % ("paused" if n in asked else "unpaused", min(len(asked & is_open), 3),
@@ -634,9 +707,144 @@ def run_in(case):
     return Result(lines, exp, v2, sorted(tags), nontrivial=bool(log))
 
 
+# A registered IPushProducer whose truth value is False (it defines __len__/__bool__, e.g. a buffer-like producer
+# that is empty right now): before fix 129b6a1 `Outbound.resumeProducing` did `p = self._get_next_unpaused_producer();
+# if not p: break`, so the loop ended when that producer came up: it never got its turn and everybody behind it waited
+# for another drain.  The Lean model identifies producers with ids; this case kind runs the witness on the real code
+# (violation `falsy-producer-never-resumed`).
+STRICT_FALSY_PRODUCER = True
+
+
+def run_falsy(case):
+    @implementer(IPushProducer)
+    class P:
+        def __init__(self, name, falsy):
+            self.name, self.falsy, self.calls = name, falsy, []
+
+        def __len__(self):
+            return 0 if self.falsy else 1
+
+        def pauseProducing(self):
+            self.calls.append("pause")
+
+        def resumeProducing(self):
+            self.calls.append("resume")
+
+        def stopProducing(self):
+            pass
+
+    class C:
+        class transport:
+            @staticmethod
+            def registerProducer(p, s):
+                pass
+
+            @staticmethod
+            def unregisterProducer():
+                pass
+
+        @staticmethod
+        def send_record(r):
+            pass
+    o = Outbound(FakeManager(), None)
+    prods = [P("p%d" % n, n in case["falsy"]) for n in range(case["n"])]
+    for n, pr in enumerate(prods):
+        o.subchannel_registerProducer(n, pr, True)
+    o.use_connection(C)
+    for _ in range(case.get("cycles", 0)):
+        o.pauseProducing()
+        o.resumeProducing()
+    stuck = [pr.name for pr in prods if pr.calls[-1:] != ["resume"]]
+    tags, viol = ["falsy-producer"], []
+    if stuck:
+        tags.append("obs:falsy-producer-never-resumed")
+        if STRICT_FALSY_PRODUCER:
+            viol.append(("falsy-producer-never-resumed",
+                         f"transport writable and idle after {case.get('cycles', 0)} further pause/drain cycles, but producers {stuck} "
+                         f"were never resumed (falsy producers: {['p%d' % n for n in case['falsy']]})"))
+    return Result([], [], viol, tags, nontrivial=False)
+
+
+def run_coop(case):
+    """Real Outbound + real PullToPush + the real twisted Cooperator scheduled by a real EventualQueue on a Clock
+    (`Cooperator(scheduler=eq.eventually)`, as wormhole.create() builds it).  Oracle only (the Lean model leaves the
+    Cooperator's scheduling to the case): once the connection is up and drained, a registered pull producer that was
+    last told to produce gets its resumeProducing() called within a few eventual turns — its wake-up is not lost."""
+    from twisted.internet.task import Cooperator
+    clock = Clock()
+    eq = EventualQueue(clock)
+    coop = Cooperator(terminationPredicateFactory=lambda: (lambda: True), scheduler=eq.eventually)
+    o = Outbound(FakeManager(), coop)
+    calls = [0]
+
+    @implementer(IPullProducer)
+    class Pull:
+        def resumeProducing(self):
+            calls[0] += 1
+
+        def stopProducing(self):
+            pass
+
+    class C:
+        class transport:
+            @staticmethod
+            def registerProducer(p, s):
+                pass
+
+            @staticmethod
+            def unregisterProducer():
+                pass
+
+        @staticmethod
+        def send_record(r):
+            pass
+    connected = registered = False
+    tags, viol = ["coop"], []
+
+    def turn():
+        # one reactor turn: run the timed calls that are pending now (not the ones they schedule)
+        for dc in list(clock.calls):
+            if dc in clock.calls and dc.active():
+                clock.calls.remove(dc)
+                dc.called = 1
+                dc.func(*dc.args, **dc.kw)
+    for tok in case["ops"]:
+        if tok == "g" and not registered:
+            o.subchannel_registerProducer(1, Pull(), False)
+            registered = True
+        elif tok == "U" and not connected:
+            o.use_connection(C)
+            connected = True
+        elif tok == "D" and connected:
+            o.stop_using_connection()
+            connected = False
+        elif tok == "P":
+            o.pauseProducing()
+        elif tok == "R" and connected:
+            o.resumeProducing()
+        elif tok == "t":
+            turn()
+    if registered:
+        if not connected:
+            o.use_connection(C)
+        o.resumeProducing()
+        before = calls[0]
+        for _ in range(4):
+            turn()
+        tags.append("coop:final-wakeup")
+        if calls[0] == before:
+            viol.append(("pull-wakeup-lost", "connection up and drained, Outbound told the pull producer's adapter to resume, but its "
+                         "resumeProducing() is not called in 4 eventual turns"))
+    return Result([], [], viol, tags, nontrivial=False)
+
+
 def run_case(case):
     if case["kind"] == "out":
         return run_out(case)
+    if case["kind"] == "coop":
+        return run_coop(case)
+    if case["kind"] == "falsy":
+        return run_falsy(case)
     return run_in(case)
 
 
@@ -648,6 +856,15 @@ def O(tok, *scripts):
 
 
 CORPUS = [
+    # a pull producer writes to its locally closed subchannel (AlreadyClosedError out of its resumeProducing):
+    # _pull unregisters the adapter; the next back-pressure event pauses everybody else, the next drain resumes them
+    [O("U"), O("r:1:10:0"), O("r:2:2:1"), O("r:3:3:1"), O("pl:10", ["X"]), O("P"), O("R"), O("w1"), O("R", ["w0"], ["w0"]), O("pl:10")],
+    [O("r:1:10:0"), O("r:2:2:1"), O("U"), O("pl:10", ["w0", "X", "w1"]), O("D"), O("U", ["w0"]), O("pl:10")],
+    [O("U"), O("r:1:10:0"), O("r:2:11:0"), O("pl:10", ["P", "X"]), O("R"), O("pl:11", ["w1"]), O("pl:11", ["X"]), O("R"), O("r:1:12:0"), O("pl:12")],
+    [O("U"), O("r:1:10:0"), O("pl:10", ["u:1", "X"]), O("pl:10", ["X"]), O("X")],
+    # OUTSIDE the environment: a push producer's resumeProducing raises; a failed pull producer already replaced
+    [O("r:1:1:1"), O("r:2:2:1"), O("U", ["X"]), O("P"), O("R")],
+    [O("U"), O("r:1:10:0"), O("pl:10", ["u:1", "r:1:2:1", "X"]), O("P"), O("R")],
     # pause arrives inside a producer's turn (its write filled the TCP buffer)
     [O("r:1:1:1"), O("r:2:2:1"), O("r:3:3:1"), O("U", ["w1"]), O("R", ["w1"]), O("R", ["w1"]), O("R", ["w0"], ["w0"], ["w0"])],
     # pause-then-resume inside a turn; nested loops
@@ -678,11 +895,14 @@ CORPUS = [
 ]
 
 
-def rand_script(rng, depth=0):
+def rand_script(rng, depth=0, fail=0.0):
     n = rng.choice([0, 1, 1, 1, 2, 2, 3])
     out = []
     for _ in range(n):
         r = rng.random()
+        if rng.random() < fail:
+            out.append("X")
+            continue
         if r < 0.30:
             out.append(rng.choice(["w0", "w1", "w1"]))
         elif r < 0.45:
@@ -736,7 +956,44 @@ def rand_out_case(rng, adversarial=False):
             tok = "pl:%d" % rng.randrange(21, max(22, fresh[0] + 1))
         nscripts = rng.choice([0, 0, 1, 2, 3, 4]) if tok[0] in "RUp" else 0
         scripts = [[fix(t) for t in rand_script(rng)] for _ in range(nscripts)]
+        if tok.startswith("pl:") and nscripts:
+            # the pull producer's own turn is the first script: it may fail (its subchannel was closed locally)
+            scripts[0] = [fix(t) for t in rand_script(rng, fail=0.35)]
+        elif adversarial and nscripts and rng.random() < 0.2:
+            scripts[-1] = scripts[-1] + ["X"]
         ops.append(dict(op=fix(tok), scripts=scripts))
+    return dict(kind="out", ops=ops)
+
+
+def rand_pullfail_case(rng):
+    """pull (and push) producers registered on a live connection; pull producers get Cooperator turns in which
+    they may hit their locally closed subchannel; back-pressure and drain events in between"""
+    ops = [O("U")] if rng.random() < 0.8 else []
+    pulls, nxt = [], 30
+    for sc in range(1, rng.randrange(3, 6)):
+        nxt += 1
+        if rng.random() < 0.55 or not pulls:
+            ops.append(O("r:%d:%d:0" % (sc, nxt)))
+            pulls.append(nxt)
+        else:
+            ops.append(O("r:%d:%d:1" % (sc, nxt)))
+        rng.shuffle(ops[1:]) if False else None
+    if not ops or ops[0]["op"] != "U":
+        ops.append(O("U"))
+    for _ in range(rng.randrange(3, 10)):
+        r = rng.random()
+        if r < 0.4:
+            script = rand_script(rng, fail=0.4)
+            script = [t for t in script if not t.startswith("r:")]
+            ops.append(O("pl:%d" % rng.choice(pulls), script))
+        elif r < 0.55:
+            ops.append(O(rng.choice(["P", "w1", "S"])))
+        elif r < 0.8:
+            ops.append(O("R", *[[t for t in rand_script(rng) if not t.startswith("r:")] for _ in range(rng.randrange(0, 3))]))
+        elif r < 0.9:
+            ops.extend([O("D"), O("U")])
+        else:
+            ops.append(O("u:%d" % rng.randrange(1, 5)))
     return dict(kind="out", ops=ops)
 
 
@@ -745,6 +1002,7 @@ ALPHA_SMALL = [O("U"), O("D"), O("R"), O("R", ["w1"]), O("R", ["P", "R"]), O("u:
 ALPHA_BIG = ALPHA_SMALL + [
     O("R", ["w1"], ["w1"]), O("R", ["w1", "R"], ["w1"]), O("R", ["u:1"]), O("R", ["u:2"], ["c:3"]),
     O("R", ["P", "r:4:4:1", "R"]), O("U", ["w1"]), O("U", ["P", "R"], ["u:2"]), O("r:1:1:1"), O("r:4:5:0"), O("pl:5", ["w1"]),
+    O("pl:5", ["X"]),
 ]
 
 
@@ -823,10 +1081,19 @@ def exhaustive_in(alpha, depth, prefix=(), first=None):
 def cases(rng, tier):
     out = [dict(kind="out", ops=c) for c in CORPUS]
     out.extend(dict(kind="in", ops=c) for c in IN_CORPUS)
+    for d in range(1, 7 if tier == "thorough" else 5):
+        for seq in itertools.product(["g", "U", "D", "P", "R", "t"], repeat=d):
+            if "g" in seq:
+                out.append(dict(kind="coop", ops=list(seq)))
+    out.append(dict(kind="falsy", n=2, falsy=[0], cycles=0))
+    out.append(dict(kind="falsy", n=3, falsy=[1], cycles=2))
+    out.append(dict(kind="falsy", n=2, falsy=[], cycles=1))
     thorough = tier == "thorough"
     n = 6000 if thorough else 300
     for k in range(n):
         out.append(rand_out_case(rng, adversarial=(k % 5 == 4)))
+    for k in range(n // 2):
+        out.append(rand_pullfail_case(rng))
     for k in range(4000 if thorough else 300):
         out.append(rand_in_case(rng))
     if thorough:
@@ -860,11 +1127,19 @@ def search(rng, seconds, seeds):
     while time.time() - t0 < seconds:
         c = rand_out_case(rng)
         yield c, run_case(c)
+        c = rand_pullfail_case(rng)
+        yield c, run_case(c)
         c = rand_in_case(rng)
         yield c, run_case(c)
 
 
 def shrink(case):
+    if case["kind"] == "falsy":
+        return
+    if case["kind"] == "coop":
+        for i in range(len(case["ops"])):
+            yield dict(kind="coop", ops=case["ops"][:i] + case["ops"][i + 1:])
+        return
     ops = case["ops"]
     for i in range(len(ops)):
         c = dict(case)
